@@ -4,6 +4,7 @@ import itertools
 import pickle
 import queue
 import random
+import threading
 import time
 import weakref
 
@@ -192,6 +193,9 @@ class FakeSocket:
                 return None
             # Python <3.2 doesn't return a status from wait. On Python 3.2+
             # we bail out early on False.
+            if timeout is not None:
+                # Condition.wait cannot take more
+                timeout = min(timeout, threading.TIMEOUT_MAX)
             if self._db.condition.wait(timeout=timeout) is False:
                 return None  # Timeout expired
             ret = func(False)
